@@ -146,6 +146,20 @@ Section Oracle.
         end
     end.
 
+  (** *** C19 at call time: a reserved name is never silently shadowed.  A keyword argument named
+      [_ARGS] / [_KWARGS], or - on a callable with postconditions - an argument bound to a parameter
+      named [result] / [OLD] (positionally, by keyword or by default), makes the call fail with
+      TypeError before the body runs (invariants around a method are evaluated first). *)
+  Definition spec_C19_call (t : list event) (r : pv + exn) : bool :=
+    if has_checker && (reserved_kw kwargs || clashing_names s post args kwargs)
+       && forallb (fun i => is_ok (inv_val_ st0 i) && is_ok (error_of U RInv i [("self", self)] st0)) invs_before
+       && invs_hold_ invs_before st0
+    then match r with
+         | inr (XLib cls _) => String.eqb cls "TypeError" && negb (existsb is_body t)
+         | _ => false
+         end
+    else true.
+
   (** *** the expected outcome, declaratively, when no contract evaluation raises *)
   Definition inv_error (l : list contract) (st : store) : option exn :=
     match find (fun i => negb (inv_holds_ st i)) l with
